@@ -134,6 +134,7 @@ def gen_world(rng: random.Random, tier: str) -> dict:
         if rng.random() < 0.2:
             # a different number of reference channels per dataset (the split itself does not require equal counts)
             w["ref_ind"] = [rng.sample(range(c), rng.randint(1, c - 1)) for c in nch]
+        w["ref_as"] = rng.choices(["list", "tuple", "npint"], weights=[0.75, 0.15, 0.10])[0]
     return w
 
 
@@ -491,6 +492,10 @@ def run_case(seed, tier="quick", case=None, known=()):
     user_hash = [h_array(a) for a in owners]
     user_list = list(arrays)
     user_ref = copy.deepcopy(world.get("ref_ind"))
+    if user_ref is not None and world.get("ref_as") == "tuple":
+        user_ref = [tuple(r) for r in user_ref]
+    elif user_ref is not None and world.get("ref_as") == "npint":
+        user_ref = [[np.int64(c) for c in r] for r in user_ref]
     world["_user_list"], world["_user_ref"] = user_list, user_ref
     m = Model(world, arrays)
     log = EventLog(seed)
@@ -682,7 +687,7 @@ def run_case(seed, tier="quick", case=None, known=()):
         for i, a in enumerate(arrays):
             if h_array(owners[i]) != user_hash[i] or user_list[i] is not a:
                 stop |= violate("user.mutated", op, step, f"user array {i} changed")
-        if user_ref is not None and user_ref != world.get("ref_ind"):
+        if user_ref is not None and [[int(c) for c in r] for r in user_ref] != world.get("ref_ind"):
             stop |= violate("user.mutated", op, step, "user reference index list changed")
         for name, alg, h in bound:
             if _hash_handed(getattr(alg, "data", None)) != h:
@@ -762,6 +767,10 @@ def shrink_candidates(case):
     if w.get("int_fs"):
         w2 = copy.deepcopy(w)
         w2["int_fs"] = False
+        yield {"world": w2, "ops": ops}
+    if w.get("ref_as", "list") != "list":
+        w2 = copy.deepcopy(w)
+        w2["ref_as"] = "list"
         yield {"world": w2, "ops": ops}
     if w.get("dtype", "float64") != "float64":
         w2 = copy.deepcopy(w)
